@@ -43,25 +43,27 @@ Qed.
 
 Lemma step_mono : forall s i s', step s i = Some s' ->
   (o_cl (s_o s) = true -> o_cl (s_o s') = true) /\ (i_cl (s_i s) = true -> i_cl (s_i s') = true) /\
-  (o_cl (s_o s) = true /\ o_pend (s_o s) = false -> o_cl (s_o s') = true /\ o_pend (s_o s') = false).
+  (o_cl (s_o s) = true /\ o_pend (s_o s) = false -> o_cl (s_o s') = true /\ o_pend (s_o s') = false) /\
+  (o_wfail (s_o s) = true -> o_wfail (s_o s') = true).
 Proof.
   intros s i s' H. destr_step H; cbn;
     rewrite ?(proj1 (i_setdeadline_keeps _ _ _)), ?(proj1 (i_fire_keeps _ _));
-    (split; [|split]); auto; try (intros; apply o_mark_cl); try congruence.
-  - (* OMark *) intros [A B]. unfold o_mark. rewrite A. auto.
-  - (* OWriteTag *) unfold o_writetag. destruct (o_pend (s_o s)); cbn; auto.
-  - (* OWriteTag *) intros [A B]. unfold o_writetag. rewrite B. auto.
+    (split; [|split; [|split]]); auto; try (intros; apply o_mark_cl); try congruence;
+    try (unfold o_mark; destruct (o_cl (s_o s)); cbn; auto; fail);
+    try (unfold o_writetag; destruct (o_pend (s_o s)); cbn; auto; fail).
+  all: intros [A B]; first [unfold o_mark; rewrite A; auto | unfold o_writetag; rewrite B; auto].
 Qed.
 
 Lemma run_mono : forall tr s s', run step s tr = Some s' ->
   (o_cl (s_o s) = true -> o_cl (s_o s') = true) /\ (i_cl (s_i s) = true -> i_cl (s_i s') = true) /\
-  (o_cl (s_o s) = true /\ o_pend (s_o s) = false -> o_cl (s_o s') = true /\ o_pend (s_o s') = false).
+  (o_cl (s_o s) = true /\ o_pend (s_o s) = false -> o_cl (s_o s') = true /\ o_pend (s_o s') = false) /\
+  (o_wfail (s_o s) = true -> o_wfail (s_o s') = true).
 Proof.
   induction tr as [|l tr IH]; intros s s' H; cbn [run] in H.
   - injection H as <-. auto.
   - destruct (step s l) as [s1|] eqn:E; [|discriminate].
-    destruct (step_mono s l s1 E) as (A & B & C). destruct (IH s1 s' H) as (D & F & G).
-    split; [auto|]. split; auto.
+    destruct (step_mono s l s1 E) as (A & B & C & D). destruct (IH s1 s' H) as (A' & B' & C' & D').
+    split; [auto|]. split; [auto|]. split; auto.
 Qed.
 
 (* ---- once the stream is closed the encoder buffer is never written again,
@@ -70,7 +72,8 @@ Qed.
 
 Definition tag_only (o o' : outg) : Prop :=
   (o_wire o' = o_wire o /\ o_pend o' = o_pend o) \/
-  (o_pend o = true /\ o_wire o' = o_wire o ++ [IClose] /\ o_pend o' = false).
+  (o_pend o = true /\ o_pend o' = false /\
+   (o_wire o' = o_wire o ++ [IClose] \/ o_wire o' = o_wire o (* the connection refused the tag *))).
 
 Lemma step_frozen : forall s i s', INV s -> o_cl (s_o s) = true -> step s i = Some s' ->
   o_buf (s_o s') = o_buf (s_o s) /\ o_cl (s_o s') = true /\ tag_only (s_o s) (s_o s').
@@ -81,9 +84,18 @@ Proof.
     destruct (Hchk Hc). congruence.
   - (* OFlush *) rewrite Hcode in Hsafe. apply safe_flush in Hsafe. destruct Hsafe as (_ & Hc & _).
     destruct (Hchk Hc). congruence.
-  - (* OMark *) unfold o_mark. rewrite Hcl. auto.
-  - (* OWriteTag *) unfold o_writetag. destruct (o_pend (s_o s)) eqn:Hp; cbn; auto.
-    split; [reflexivity|]. split; [exact Hcl|]. right. auto.
+  - first [ unfold o_mark; rewrite Hcl; auto; fail
+          | unfold o_writetag; destruct (o_pend (s_o s)) eqn:Hp; cbn; auto;
+            (split; [reflexivity|]); (split; [exact Hcl|]); right; destruct (o_wfail (s_o s)); auto ].
+  - first [ unfold o_mark; rewrite Hcl; auto; fail
+          | unfold o_writetag; destruct (o_pend (s_o s)) eqn:Hp; cbn; auto;
+            (split; [reflexivity|]); (split; [exact Hcl|]); right; destruct (o_wfail (s_o s)); auto ].
+  - first [ unfold o_mark; rewrite Hcl; auto; fail
+          | unfold o_writetag; destruct (o_pend (s_o s)) eqn:Hp; cbn; auto;
+            (split; [reflexivity|]); (split; [exact Hcl|]); right; destruct (o_wfail (s_o s)); auto ].
+  - first [ unfold o_mark; rewrite Hcl; auto; fail
+          | unfold o_writetag; destruct (o_pend (s_o s)) eqn:Hp; cbn; auto;
+            (split; [reflexivity|]); (split; [exact Hcl|]); right; destruct (o_wfail (s_o s)); auto ].
 Qed.
 
 Lemma run_frozen : forall tr s s', INV s -> o_cl (s_o s) = true -> run step s tr = Some s' ->
@@ -97,8 +109,8 @@ Proof.
     unfold tag_only in *.
     destruct C as [[C1 C2]|(C1 & C2 & C3)]; destruct F as [[F1 F2]|(F1 & F2 & F3)].
     + left. split; congruence.
-    + right. repeat split; congruence.
-    + right. repeat split; congruence.
+    + right. split; [congruence|]. split; [exact F2|]. rewrite <- C1. exact F3.
+    + right. split; [exact C1|]. split; [congruence|]. rewrite F1. exact C3.
     + congruence.
 Qed.
 
@@ -136,18 +148,24 @@ Proof.
 Qed.
 
 Lemma wire_ok_count o : wire_ok o ->
-  closes (o_wire o) <= 1 /\
-  (closes (o_wire o) = 1 <-> o_cl o = true /\ o_pend o = false) /\
+  o_att o <= 1 /\ closes (o_wire o) <= o_att o /\
+  (o_att o = 1 <-> o_cl o = true /\ o_pend o = false) /\
+  (o_wfail o = false -> closes (o_wire o) = o_att o) /\
   (forall pre post, o_wire o = pre ++ IClose :: post -> post = []).
 Proof.
   intros (H1 & H2 & _). destruct (o_cl o) eqn:Hcl.
   - specialize (H2 eq_refl). destruct (o_pend o) eqn:Hp.
-    + rewrite (closes_none _ H2). split; [lia|]. split; [split; [discriminate|intros [_ E]; discriminate]|].
-      intros p q E. exfalso. apply H2. rewrite E. apply in_or_app. right. left. reflexivity.
-    + destruct H2 as (pre & Hw & Hn). rewrite Hw, closes_app, (closes_none pre Hn). cbn.
-      split; [lia|]. split; [tauto|].
-      intros p q E. exact (last_unique IClose pre p q E Hn).
-  - destruct (H1 eq_refl) as [Hw Hp]. rewrite (closes_none _ Hw). split; [lia|].
-    split; [split; [discriminate|intros [E _]; discriminate]|].
+    + destruct H2 as [Hw Ha]. rewrite (closes_none _ Hw), Ha. split; [lia|]. split; [lia|].
+      split; [split; [discriminate|intros [_ E]; discriminate]|]. split; [reflexivity|].
+      intros p q E. exfalso. apply Hw. rewrite E. apply in_or_app. right. left. reflexivity.
+    + destruct H2 as (Ha & Hl & Hf). rewrite Ha. split; [lia|].
+      destruct Hl as [Hn|(pre & Hw & Hn)].
+      * rewrite (closes_none _ Hn). split; [lia|]. split; [tauto|]. split.
+        -- intro E. exfalso. exact (Hn (Hf E)).
+        -- intros p q E. exfalso. apply Hn. rewrite E. apply in_or_app. right. left. reflexivity.
+      * rewrite Hw, closes_app, (closes_none pre Hn). cbn. split; [lia|]. split; [tauto|]. split; [reflexivity|].
+        intros p q E. exact (last_unique IClose pre p q E Hn).
+  - destruct (H1 eq_refl) as (Hw & Hp & Ha). rewrite (closes_none _ Hw), Ha. split; [lia|]. split; [lia|].
+    split; [split; [discriminate|intros [E _]; discriminate]|]. split; [reflexivity|].
     intros p q E. exfalso. apply Hw. rewrite E. apply in_or_app. right. left. reflexivity.
 Qed.
